@@ -58,13 +58,18 @@ pub(super) fn new_pass() {
 }
 
 pub(super) fn tick() {
-    let t = TICKS.with(|t| {
-        t.set(t.get() + 1);
-        t.get()
-    });
+    tick_by(1)
+}
+
+/// The parser advances the same clock: one step per statement it parses and 1024 per source file it reads, so that an
+/// import loop that never ends is decided by counting as well
+pub(crate) fn tick_by(n: u64) {
+    let before = TICKS.with(|t| t.get());
+    let t = before + n;
+    TICKS.with(|c| c.set(t));
     let mut cap = TICK_CAP.with(|c| c.get());
     let mut from_env = false;
-    if cap == 0 && t % 4096 == 0 {
+    if cap == 0 && t / 4096 != before / 4096 {
         // No cap installed: a process-wide one can be configured through the environment
         if let Ok(c) = std::env::var("MOS_VERIF_WORK") {
             cap = c.parse().unwrap_or(0);
